@@ -819,8 +819,13 @@ void fp_inv_lower(fp_t c, const fp_t a) {
 
 void fp_inv_sim(fp_t *c, const fp_t *a, int n) {
 	int i;
-	fp_t u, *t = RLC_ALLOCA(fp_t, n);
+	fp_t u, *t;
 
+	if (n <= 0) {
+		return;
+	}
+
+	t = RLC_ALLOCA(fp_t, n);
 	fp_null(u);
 
 	RLC_TRY {
